@@ -73,7 +73,8 @@ def _variant(rng, base, th, ob, pools):
 
 def _mutate_settings(rng, th, ob):
     th, ob = copy.deepcopy(th), copy.deepcopy(ob)
-    k = rng.choice(["nfff", "tmc", "target", "n3lo", "fns", "sv", "proj", "neargrid", "neargrid"])
+    k = rng.choice(["nfff", "tmc", "target", "n3lo", "fns", "sv", "proj", "neargrid", "neargrid", "othergrid", "othergrid",
+                    "degree"])
     if k == "nfff":
         th["NfFF"] = {3: 4, 4: 3, 5: 4}[th["NfFF"]]
     elif k == "tmc":
@@ -97,6 +98,19 @@ def _mutate_settings(rng, th, ob):
         j = rng.randrange(1, len(g) - 1)
         g[j] = g[j] * (1.0 + rng.choice([1e-7, -1e-7, 3e-6]))
         ob["interpolation_xgrid"] = g
+    elif k == "othergrid":
+        # the same request on another interpolation grid (same first node or lower, so that the points stay inside):
+        # anything memoised per process by node position or index rather than by grid is then shared wrongly
+        g0 = ob["interpolation_xgrid"]
+        cands = [g for g in cards.GRIDS_LOG + cards.GRIDS_LIN if g[0] <= g0[0] and list(g) != list(g0)]
+        if cands:
+            g = list(rng.choice(cands))
+            ob["interpolation_xgrid"] = g
+            ob["interpolation_is_log"] = g in [list(x) for x in cards.GRIDS_LOG]
+            ob["interpolation_polynomial_degree"] = min(ob["interpolation_polynomial_degree"], len(g) - 1)
+    elif k == "degree":
+        d0 = ob["interpolation_polynomial_degree"]
+        ob["interpolation_polynomial_degree"] = rng.choice([d for d in (1, 2, 3) if d != d0 and d < len(ob["interpolation_xgrid"])] or [d0])
     elif k == "proj":
         ob["ProjectileDIS"] = "positron" if ob.get("ProjectileDIS", "electron") == "electron" else "electron"
     return th, ob
@@ -528,6 +542,72 @@ def _clear_globals():
         pass
 
 
+_MODULE_STATE = None
+
+
+def _snapshot_module_state():
+    """Import-time contents of every module-level dict / list / set of the yadism package (and the lru_caches
+    defined there).  Taken once per worker, before the first run executes anything."""
+    import importlib
+    import pkgutil
+    import sys
+
+    import yadism
+
+    for m in pkgutil.walk_packages(yadism.__path__, "yadism."):
+        try:
+            importlib.import_module(m.name)
+        except BaseException:  # noqa: BLE001 - e.g. the adani API mismatch of the asy modules
+            pass
+    state = []
+    for name, mod in sorted(sys.modules.items()):
+        if not (name == "yadism" or name.startswith("yadism.")) or mod is None or name == "yadism.log":
+            continue
+        for attr, val in sorted(vars(mod).items()):
+            if attr.startswith("__"):
+                continue
+            if type(val) in (dict, list, set):
+                state.append((val, type(val)(val)))
+    return state
+
+
+def _reset_process_state():
+    """Canonical start of a run and of every isolated reference: the known process-global memos are cleared and
+    every module-level container of the yadism package is put back to its import-time contents, every lru_cache
+    defined there is emptied.  On a tree where the property holds this cannot matter (they are caches or
+    constant tables); on a tree that keeps a memo at module level which the history has filled (seeded change
+    c14-tmc-weights-memo-ignores-grid: convolution weights keyed by node position, not by grid) it makes the
+    reference what it claims to be - the request in an otherwise empty process."""
+    import sys
+
+    global _MODULE_STATE
+    _clear_globals()
+    if _MODULE_STATE is None:
+        _MODULE_STATE = _snapshot_module_state()
+        return
+    for live, orig in _MODULE_STATE:
+        if isinstance(live, dict):
+            if live != orig or len(live) != len(orig):
+                live.clear()
+                live.update(orig)
+        elif isinstance(live, list):
+            if len(live) != len(orig) or any(a is not b for a, b in zip(live, orig)):
+                live[:] = orig
+        else:
+            if live != orig:
+                live.clear()
+                live.update(orig)
+    for name, mod in list(sys.modules.items()):
+        if (name == "yadism" or name.startswith("yadism.")) and mod is not None:
+            for val in list(vars(mod).values()):
+                cc = getattr(val, "cache_clear", None)
+                if callable(cc) and getattr(val, "__module__", "").startswith("yadism"):
+                    try:
+                        cc()
+                    except Exception:  # noqa: BLE001
+                        pass
+
+
 def _decoy_runner():
     """Part of the canonical history of a reference: after the known process-global memos are cleared, a
     runner with entirely different settings (3-node linear grid, LO, EM, another target) is *constructed* and
@@ -577,7 +657,7 @@ class RefTable:
 
         self.sched.quiet += 1
         try:
-            _clear_globals()
+            _reset_process_state()
             _decoy_runner()
             obs = [] if name is None else [[name, [point]]]
             th, ob = _mk_card(self.settings[s], obs)
@@ -689,7 +769,7 @@ class Execution:
 
         self.seams.install()
         try:
-            _clear_globals()
+            _reset_process_state()
             self.refs = RefTable(self.trace["settings"], self.sched)
             prev_sig = self.signature() if self.collect_states else None
             for i, op in enumerate(self.trace["ops"]):
